@@ -3,6 +3,7 @@
 package main
 
 import (
+	"runtime/pprof"
 	"encoding/json"
 	"flag"
 	"fmt"
@@ -24,7 +25,14 @@ func main() {
 	replay := flag.String("replay", "", "witness file to replay")
 	budget := flag.Duration("budget", 60*time.Second, "worker time budget")
 	meta := flag.Bool("meta", false, "print check metadata")
+	cpuprof := flag.String("cpuprofile", "", "write a CPU profile (diagnostics)")
 	flag.Parse()
+	if *cpuprof != "" {
+		if f, err := os.Create(*cpuprof); err == nil {
+			pprof.StartCPUProfile(f)
+			defer pprof.StopCPUProfile()
+		}
+	}
 	c := fw.Get(*check)
 	if c == nil {
 		fmt.Fprintf(os.Stderr, "unknown check %q (have %v)\n", *check, fw.IDs())
